@@ -119,6 +119,13 @@ def jobs(tier):
       js.append(Job("finding.trap.bottom_at_range_min", "C12/trap.c", defines={"VC_CASE": 0, "VC_N": 8, "VC_GEOM": 0, "VC_LOWB": 1}, cbmc_flags=UB,
                   kind="proof", functions=["pixman_rasterize_trapezoid", "pixman_sample_floor_y"],
                   domain="valid trapezoid whose shifted bottom is <= INT32_MIN + Y_FRAC_FIRST", timeout=2400, min_props=8, assumptions=[A_SHIFT]))
+    # ---- (7) (lead) the bounding-box shortcut table of pixman_composite_trapezoids against the real combiners
+    for op, fn in (("CLEAR", "combine_clear"), ("SRC", "combine_src_u"), ("DST", "combine_dst"), ("OVER", "combine_over_u"),
+                   ("OVER_REVERSE", "combine_over_reverse_u"), ("IN", "combine_in_u"), ("IN_REVERSE", "combine_in_reverse_u"),
+                   ("OUT", "combine_out_u"), ("OUT_REVERSE", "combine_out_reverse_u"), ("ATOP", "combine_atop_u"),
+                   ("ATOP_REVERSE", "combine_atop_reverse_u"), ("XOR", "combine_xor_u"), ("ADD", "combine_add_u")):
+        js.append(Job("zero_src.%s" % op, "C12/zero_src.c", defines={"VC_OPA": op, "VC_FN": fn}, kind="proof", unwind=2,
+                      functions=["zero_src_has_no_effect", fn], domain="every (s,d) in 2^64, mask coverage 0", timeout=600, min_props=2))
     return js
 
 
